@@ -192,6 +192,18 @@ class C10(core.PropBase):
                     if thorough or ty != "FLOAT" or rng.random() < 0.5:
                         yield case([d], [("P", v)])
                 yield case([d], [("P", rng.choice(probes)), (rng.choice(EXTRA_NAMES), "x")])
+        # 1b. long strings against large length bounds (the small sweep stops at 3): lengths at / around each bound
+        for ty in ("STRING", "PATH"):
+            for bound in (64, 127, 128, 129, 255, 256, 1000, 1024):
+                for which in ("hi", "lo", "both"):
+                    d = mkdef("P", ty, bound if which != "hi" else None, bound if which != "lo" else None)
+                    if jc.decoded("job", [d]) is None:
+                        continue
+                    for n in (bound - 1, bound, bound + 1, bound + 64, 2 * bound + 1):
+                        if n > 1024:
+                            continue
+                        v = ("/" + "y" * (n - 1)) if ty == "PATH" else "y" * n
+                        yield case([d], [("P", v)])
         # 2. random multi-parameter cases
         for _ in range(150000 if thorough else 25000):
             yield rand_case(rng)
@@ -203,7 +215,7 @@ class C10(core.PropBase):
 
     def rule(self, tier):
         return ("corpus (historical failing inputs first); single-definition sweep: type x min x max x allowedValues x default over "
-                "INT bounds {-2,0,3}, FLOAT bounds {-2,0,3,'0.0','-2.5','3e0',0.5}, lengths {1,3}, every decodable combination x "
+                "INT bounds {-2,0,3}, FLOAT bounds {-2,0,3,'0.0','-2.5','3e0',0.5}, lengths {1,3} (and 64..1024 with values one below / at / above the bound), every decodable combination x "
                 "every probe value of the type (on/inside/outside each bound, alternative spellings, non-numerals, non-finite), missing, extra"
                 + (" (all)" if tier == "thorough" else " (FLOAT probes sampled 50%)")
                 + "; random 1-4 parameter definition sets with supplied/missing/extra values and relative template dir; "
